@@ -145,8 +145,8 @@ def build(system, spec):
     sensors.append(PeriodicSensor(1.25, [AttributeProbe('received_parts_count', sinks[0])], 'ps', data_capacity=6))
     for a in spec.get('actions', []):
         t, prio, kind = a[0], a[1], a[2]
-        if kind == 'rewire_add':
-            continue
+        if kind in ('rewire_add', 'newline', 'newsink', 'newsource', 'revalue'):
+            continue            # actions of the E3 models that create assets or need the monitor: not part of these models
         x = D[a[3]] if kind != 'addres' else a[3]
         y = a[4] if len(a) > 4 else None
         if kind == 'wo':
